@@ -45,6 +45,26 @@ STRENGTHENED = {
     "C18-superseded-handler-untracked": "missed at first; C18 gained the scenario slow-twice (token re-used while the first handler runs) and counts running handlers",
     "C18-empty-ack-timer-outlives-transport": "missed at first; the shutdown fault gained loop stalls after the 1st..6th iteration of the shutdown (late timers)",
     "C15-pong-skips-critical-check": "missed at first; the alphabet gained critical/elective options in Pong, Release and Abort",
+    # round 4
+    "C02-shutdown-window-accepts-requests": "missed at first; C02 and C18 gained a request submitted by another task after the 1st..4th loop iteration of the shutdown",
+    "C03-cancelled-backlog-giveup-hangs": "missed at first; C03 gained pre=follower-withdrawn (a second request held back behind the CON under test and withdrawn)",
+    "C04-dup-rearms-expiry": "missed at first (needs depth 7); C04 gained three long prefixes behind which the BFS continues",
+    "C05-block2-followup-content-format": "missed at first; requests now carry Content-Format / Accept / a query and the strict server insists that Block2 follow-ups are the same request",
+    "C06-timeoutdict-delete-leaves-stale-timer": "missed at first; C06 gained the refill prefixes (cache / spool runs empty, refilled after 0.7 lifetimes, used 0.6 lifetimes later)",
+    "C10-dedup-covers-empty": "missed at first; C10 gained the message-ID crossing family (the peer's message carries the node's own just-acknowledged ID)",
+    "C10-rst-helper-multicast-ping": "missed at first: a CON ping received on a multicast address had been a don't-care; the statement makes no exception, the Reset is now expected",
+    "C11-chacha-tag-error-untranslated": "missed by the quick tier at first (ChaCha20 only in the thorough tier); every registered AEAD algorithm now gets two tampering configurations in both tiers",
+    "C11-echo-challenge-reuses-nonce": "missed at first; C11 gained the Echo-challenge family (no nonce re-used across a loss of replay state)",
+    "C12-response-rewinds-window": "missed at first; the arrival alphabet gained responses of the peer carrying its own Partial IV (the context in both roles)",
+    "C15-empty-csm-falsy-gate": "missed at first; the alphabet gained a CSM without options and one with only an unknown elective option",
+    "C16-host-regname-quote-ipliteral": "missed at first; C16 gained composition with Uri-Host / Uri-Port options over literal, zoned and named destinations",
+    "C17-block1-loses-original-path": "missed at first; C17 gained request bodies arriving in Block1 blocks below nested sites",
+    "C18-backlog-canceller-stale-entry": "missed at first; C18 gained obs-server-lateack (CON notifications acknowledged late)",
+    "C18-incoming-table-shared-across-contexts": "missed at first; C18 gained a second bystander that is a server with a running handler and an observer",
+    "C19-inm-placeholder-survives-failed-if-match": "missed at first; the conditions gained If-None-Match combined with If-Match",
+    "C20-lt-applied-before-base-check": "missed at first; C20 gained an update with a valid lt next to a repeated base",
+    "C20-reregister-refresh-shortcut": "missed at first; C20 gained the re-registration that carries no parameter at all",
+    "C13-first-after-load": "written against the crash enumeration (a lifetime without any file-system effect); C13 gained process death between two operations as an operation (K) before this seed was run, so it was caught",
     # round 3
     "C02-cancel-queued-drops-backlog-key": "missed by C02 at first (caught by C14); C02 gained the withdrawal of a request (held back or in flight) as a fault",
     "C03-cancel-by-remote": "missed at first (caught by C14); C03 gained the CON that had to wait behind two answered requests to the same endpoint ('queued')",
